@@ -219,6 +219,11 @@ func checkCmd(args []string) int {
 			continue
 		}
 		r := o.res
+		if r.ModelBad != "" {
+			fmt.Printf("INCONCLUSIVE %s: %s\n", name, r.ModelBad)
+			inconclusive++
+			bad(2)
+		}
 		queries += r.Queries
 		unsat += r.Unsat
 		sat += r.Sat
@@ -248,6 +253,10 @@ func checkCmd(args []string) int {
 				bad(2)
 			case no.AssumeViolated:
 				fmt.Printf("INCONCLUSIVE %s: native replay of the reach witness violates a harness assumption (encoder/stub mismatch)\n", name)
+				if os.Getenv("GSX_DEBUG") != "" {
+					jb, _ := json.MarshalIndent(o.reachJob, "", " ")
+					os.WriteFile(fmt.Sprintf("/tmp/reachfail_%s.json", sanitize(name)), jb, 0o644)
+				}
 				inconclusive++
 				bad(2)
 			default:
@@ -269,6 +278,9 @@ func checkCmd(args []string) int {
 		switch r.Status {
 		case "pass":
 		case "violation":
+			type unc struct{ msg, why string }
+			var unconfirmed []unc
+			confirmedHere := 0
 			for vi, ob := range o.violObl {
 				job := o.violJobs[vi]
 				confirmed := false
@@ -276,18 +288,23 @@ func checkCmd(args []string) int {
 				if nouts != nil {
 					if no := nouts[job.ID]; no != nil {
 						confirmed, why = confirms(job, no)
+						if !confirmed {
+							_, d := eng.CompareObserved(job, no)
+							why += "; " + d
+						}
 					}
 				}
 				if !confirmed {
-					if nouts != nil && nouts[job.ID] != nil {
-						_, d := eng.CompareObserved(job, nouts[job.ID])
-						why += "; " + d
+					unconfirmed = append(unconfirmed, unc{ob.Msg, why})
+					if os.Getenv("GSX_DEBUG") != "" {
+						jb, _ := json.MarshalIndent(job, "", " ")
+						os.WriteFile(fmt.Sprintf("/tmp/unconfirmed_%s_%d.json", sanitize(name), vi), jb, 0o644)
+						nb, _ := json.MarshalIndent(nouts[job.ID], "", " ")
+						os.WriteFile(fmt.Sprintf("/tmp/unconfirmed_%s_%d.out.json", sanitize(name), vi), nb, 0o644)
 					}
-					fmt.Printf("INCONCLUSIVE %s: solver counterexample for %q did not reproduce natively (%s)\n", name, ob.Msg, why)
-					inconclusive++
-					bad(2)
 					continue
 				}
+				confirmedHere++
 				if ke := matchKnown(known, id, name, ob.Msg); ke != nil {
 					fmt.Printf("KNOWN-FINDING: property=%s %s [%s: %s]\n", id, ke.What, name, ob.Msg)
 					knownHits++
@@ -303,6 +320,16 @@ func checkCmd(args []string) int {
 				if exit != 2 {
 					exit = 1
 				}
+			}
+			for _, u := range unconfirmed {
+				if confirmedHere > 0 {
+					// the same run already failed natively at an earlier point: secondary symptom
+					fmt.Printf("  note %s: further counterexample for %q not separately reproduced (%s)\n", name, u.msg, u.why)
+					continue
+				}
+				fmt.Printf("INCONCLUSIVE %s: solver counterexample for %q did not reproduce natively (%s)\n", name, u.msg, u.why)
+				inconclusive++
+				bad(2)
 			}
 		default:
 			fmt.Printf("INCONCLUSIVE %s: %s: %s\n", name, r.Status, r.Err)
